@@ -1,14 +1,19 @@
 ---------------------------- MODULE ParserObject ----------------------------
 (***************************************************************************)
 (* The long-lived ExpressionParser object (C12, C10 sticky state).          *)
-(* Token lists are mutable objects: `lists` maps a list identity to its     *)
-(* content (a sequence of abstract tokens <<text, position>>).  The parser  *)
+(* Token lists are mutable objects holding mutable Token objects: `lists`   *)
+(* maps a list identity to a sequence of token-object identities, `tok` maps *)
+(* a token object to its current value (<<text, configuration, position>>). *)
+(* The parser  *)
 (* owns a token cache (text -> list identity) and a parse cache; `_parse`   *)
 (* CONSUMES the list it is given; clients may edit any list handed to them. *)
 (* Two mechanisms make results history-free, each switchable so that TLC    *)
 (* shows it is necessary:                                                   *)
 (*   CopyOnReturn : tokenize hands out a copy of the cached list            *)
 (*   ResetCursor  : every parse starts from a fresh cursor                  *)
+(*   CopyTokens   : the copy handed out holds copies of the Token objects    *)
+(*                  (a shallow list copy shares them with the cache: a client *)
+(*                  that edits a token's value / type edits the cache)        *)
 (* The parser's tokenizer is public and reconfigurable (exclude_padding,     *)
 (* the function registry): `mode` is the current configuration. The caches   *)
 (* are keyed by text only, so entries made under another configuration are   *)
@@ -19,7 +24,7 @@ EXTENDS Integers, Sequences, FiniteSets, TLC
 CONSTANTS Texts,          \* abstract input strings
           TokLen,         \* [Texts -> Nat]: number of tokens (0 = tokenizing raises ValueError)
           ParseOK,        \* [Texts -> BOOLEAN]: does the fresh parser accept
-          CopyOnReturn, ResetCursor, MaxLists, MaxSteps,
+          CopyOnReturn, ResetCursor, CopyTokens, MaxLists, MaxSteps,
           Modes,          \* tokenizer configurations; TokLen / ParseOK are per configuration: [Modes -> [Texts -> ...]]
           ClearDropsTokens
 
@@ -30,7 +35,8 @@ FreshTokM(t, m)   == IF TokenizableM(t, m) THEN <<"tokens", FreshTokensM(t, m)>>
 FreshParseM(t, m) == IF ~TokenizableM(t, m) THEN <<"raise", "ValueError">>
                      ELSE IF ParseOK[m][t] THEN <<"tree", t, m>> ELSE <<"raise", "ParserException">>
 
-VARIABLES lists,       \* list identity -> content
+VARIABLES lists,       \* list identity -> sequence of token-object identities
+          tok,         \* token-object identity -> its current value (a sequence indexed by identity)
           tokCache,    \* text -> list identity (partial function as a set of pairs)
           parseCache,  \* set of texts whose tree is cached
           cursorEOF,   \* the cursor was left on the end marker by the previous parse
@@ -39,7 +45,12 @@ VARIABLES lists,       \* list identity -> content
           steps,
           mode,        \* current configuration of the parser's tokenizer
           stale        \* texts with a cache entry made under a configuration that has since been changed (no clear_cache since)
-vars == <<lists, tokCache, parseCache, cursorEOF, handed, last, steps, mode, stale>>
+vars == <<lists, tok, tokCache, parseCache, cursorEOF, handed, last, steps, mode, stale>>
+Junk == <<"junk", "none", 0>>
+\* the values a list currently shows
+Vals(ls, tk, id) == [i \in 1..Len(ls[id]) |-> tk[ls[id][i]]]
+\* allocate objects for the values vs: <<new store, their identities>>
+Alloc(tk, vs) == <<tk \o vs, [i \in 1..Len(vs) |-> Len(tk) + i]>>
 FreshTokens(t) == FreshTokensM(t, mode)
 Tokenizable(t) == TokenizableM(t, mode)
 FreshTok(t) == FreshTokM(t, mode)
@@ -50,39 +61,42 @@ ListOf(t) == (CHOOSE p \in tokCache : p[1] = t)[2]
 NewId == Cardinality(DOMAIN lists) + 1
 Put(ls, id, content) == [i \in DOMAIN ls \cup {id} |-> IF i = id THEN content ELSE ls[i]]
 
-Init == /\ lists = <<>> /\ tokCache = {} /\ parseCache = {} /\ cursorEOF = FALSE
+Init == /\ lists = <<>> /\ tok = <<>> /\ tokCache = {} /\ parseCache = {} /\ cursorEOF = FALSE
         /\ handed = {} /\ last = <<"none", "none", <<"none">>>> /\ steps = 0
         /\ mode \in Modes /\ stale = {}
 
 \* internal: make sure text t is in the token cache; returns the identity the caller receives
-\* (a copy when CopyOnReturn, else the cached list itself)
-TokenizeEffect(t, ls, tc) ==
-  LET ls1 == IF \E p \in tc : p[1] = t THEN ls ELSE Put(ls, Cardinality(DOMAIN ls) + 1, FreshTokens(t))
-      tc1 == IF \E p \in tc : p[1] = t THEN tc ELSE tc \cup {<<t, Cardinality(DOMAIN ls) + 1>>}
+\* (a copy when CopyOnReturn - of the list only, or of the Token objects too when CopyTokens -, else the cached list itself)
+TokenizeEffect(t, ls, tk, tc) ==
+  LET hit == \E p \in tc : p[1] = t
+      a1  == IF hit THEN <<tk, <<>>>> ELSE Alloc(tk, FreshTokens(t))
+      ls1 == IF hit THEN ls ELSE Put(ls, Cardinality(DOMAIN ls) + 1, a1[2])
+      tc1 == IF hit THEN tc ELSE tc \cup {<<t, Cardinality(DOMAIN ls) + 1>>}
       cid == (CHOOSE p \in tc1 : p[1] = t)[2]
       rid == IF CopyOnReturn THEN Cardinality(DOMAIN ls1) + 1 ELSE cid
-      ls2 == IF CopyOnReturn THEN Put(ls1, rid, ls1[cid]) ELSE ls1
-  IN [lists |-> ls2, tokCache |-> tc1, rid |-> rid]
+      a2  == IF CopyOnReturn /\ CopyTokens THEN Alloc(a1[1], Vals(ls1, a1[1], cid)) ELSE <<a1[1], ls1[cid]>>
+      ls2 == IF CopyOnReturn THEN Put(ls1, rid, a2[2]) ELSE ls1
+  IN [lists |-> ls2, tok |-> a2[1], tokCache |-> tc1, rid |-> rid]
 
 Tokenize(t) ==
   /\ Cardinality(DOMAIN lists) + 2 <= MaxLists
   /\ IF ~Cached(t) /\ ~Tokenizable(t)
      THEN /\ last' = <<"tokenize", t, <<"raise", "ValueError">>>>
-          /\ UNCHANGED <<lists, tokCache, handed>>
-     ELSE LET e == TokenizeEffect(t, lists, tokCache) IN
-          /\ lists' = e.lists /\ tokCache' = e.tokCache /\ handed' = handed \cup {e.rid}
-          /\ last' = <<"tokenize", t, <<"tokens", e.lists[e.rid]>>>>
+          /\ UNCHANGED <<lists, tok, tokCache, handed>>
+     ELSE LET e == TokenizeEffect(t, lists, tok, tokCache) IN
+          /\ lists' = e.lists /\ tok' = e.tok /\ tokCache' = e.tokCache /\ handed' = handed \cup {e.rid}
+          /\ last' = <<"tokenize", t, <<"tokens", Vals(e.lists, e.tok, e.rid)>>>>
   /\ UNCHANGED <<parseCache, cursorEOF>>
 
 \* _parse consumes the list it is given; its outcome depends on the CONTENT it finds there
 Parse(t) ==
   /\ Cardinality(DOMAIN lists) + 2 <= MaxLists
   /\ IF \E q \in parseCache : q[1] = t
-     THEN /\ last' = <<"parse", t, <<"tree", t, (CHOOSE q \in parseCache : q[1] = t)[2]>>>> /\ UNCHANGED <<lists, tokCache, parseCache, cursorEOF, handed>>
+     THEN /\ last' = <<"parse", t, <<"tree", t, (CHOOSE q \in parseCache : q[1] = t)[2]>>>> /\ UNCHANGED <<lists, tok, tokCache, parseCache, cursorEOF, handed>>
      ELSE IF ~Cached(t) /\ ~Tokenizable(t)
-     THEN /\ last' = <<"parse", t, <<"raise", "ValueError">>>> /\ UNCHANGED <<lists, tokCache, parseCache, cursorEOF, handed>>
-     ELSE LET e == TokenizeEffect(t, lists, tokCache)
-              content == e.lists[e.rid]
+     THEN /\ last' = <<"parse", t, <<"raise", "ValueError">>>> /\ UNCHANGED <<lists, tok, tokCache, parseCache, cursorEOF, handed>>
+     ELSE LET e == TokenizeEffect(t, lists, tok, tokCache)
+              content == Vals(e.lists, e.tok, e.rid)
               intact == content = FreshTokens(t)
               staleCur == cursorEOF /\ ~ResetCursor          \* "parsed beyond the end of the expression"
               \* a token list made under another configuration is read with the current function table
@@ -92,6 +106,7 @@ Parse(t) ==
                          ELSE IF content = FreshTokensM(t, made) THEN <<"mixed", t, made, mode>>   \* old tokens read with the current function table: unspecified
                          ELSE <<"corrupt", content>>
           IN /\ lists' = [e.lists EXCEPT ![e.rid] = <<>>]                \* consumed
+             /\ tok' = e.tok
              /\ tokCache' = e.tokCache
              /\ parseCache' = IF outcome[1] = "tree" THEN parseCache \cup {<<t, outcome[3]>>} ELSE parseCache
              /\ cursorEOF' = (outcome[1] = "tree")
@@ -102,29 +117,34 @@ Parse(t) ==
 DeepCall(t) ==
   /\ Cardinality(DOMAIN lists) + 2 <= MaxLists
   /\ ~(\E q \in parseCache : q[1] = t) /\ (Cached(t) \/ Tokenizable(t))
-  /\ LET e == TokenizeEffect(t, lists, tokCache) IN
-       /\ lists' = [e.lists EXCEPT ![e.rid] = <<>>] /\ tokCache' = e.tokCache
+  /\ LET e == TokenizeEffect(t, lists, tok, tokCache) IN
+       /\ lists' = [e.lists EXCEPT ![e.rid] = <<>>] /\ tok' = e.tok /\ tokCache' = e.tokCache
   /\ cursorEOF' \in BOOLEAN
   /\ last' = <<"deepcall", t, <<"raise", "RecursionError">>>>
   /\ UNCHANGED <<parseCache, handed>>
 Clear == /\ tokCache' = (IF ClearDropsTokens THEN {} ELSE tokCache) /\ parseCache' = {} /\ last' = <<"clear", "none", <<"none">>>>
          /\ stale' = {}
-         /\ UNCHANGED <<lists, cursorEOF, handed, mode>>
+         /\ UNCHANGED <<lists, tok, cursorEOF, handed, mode>>
 \* the client reconfigures the parser's public tokenizer; nothing else happens until the next call
 Configure(m) == /\ m # mode /\ mode' = m
                 /\ stale' = stale \cup {p[1] : p \in tokCache} \cup {q[1] : q \in parseCache}
                 /\ last' = <<"config", "none", <<"none">>>>
-                /\ UNCHANGED <<lists, tokCache, parseCache, cursorEOF, handed>>
+                /\ UNCHANGED <<lists, tok, tokCache, parseCache, cursorEOF, handed>>
 \* the client consumes / edits a list it was handed
 ClientPop(id)    == /\ id \in handed /\ Len(lists[id]) > 0 /\ lists' = [lists EXCEPT ![id] = Tail(@)]
+                    /\ UNCHANGED <<tok, tokCache, parseCache, cursorEOF, handed, last, mode, stale>>
+ClientAppend(id) == /\ id \in handed /\ Len(lists[id]) < 4
+                    /\ tok' = Append(tok, Junk) /\ lists' = [lists EXCEPT ![id] = Append(@, Len(tok) + 1)]
                     /\ UNCHANGED <<tokCache, parseCache, cursorEOF, handed, last, mode, stale>>
-ClientAppend(id) == /\ id \in handed /\ Len(lists[id]) < 4 /\ lists' = [lists EXCEPT ![id] = Append(@, <<"junk", "none", 0>>)]
-                    /\ UNCHANGED <<tokCache, parseCache, cursorEOF, handed, last, mode, stale>>
+\* ... or edits a Token object it finds in such a list (its value / type attributes are public)
+ClientMutate(id) == /\ id \in handed /\ Len(lists[id]) > 0 /\ tok[lists[id][1]] # Junk
+                    /\ tok' = [tok EXCEPT ![lists[id][1]] = Junk]
+                    /\ UNCHANGED <<lists, tokCache, parseCache, cursorEOF, handed, last, mode, stale>>
 Next == /\ steps < MaxSteps /\ steps' = steps + 1
         /\ \/ \E t \in Texts : (Tokenize(t) \/ Parse(t) \/ DeepCall(t)) /\ UNCHANGED <<mode, stale>>
            \/ Clear
            \/ \E m \in Modes : Configure(m)
-           \/ \E id \in handed : ClientPop(id) \/ ClientAppend(id)
+           \/ \E id \in handed : ClientPop(id) \/ ClientAppend(id) \/ ClientMutate(id)
 Spec == Init /\ [][Next]_vars
 
 \* C12 / C10: whatever happened before, every answer is the fresh parser's answer
@@ -138,5 +158,5 @@ HistoryFree ==
 \* handed-out lists are independent of the cache
 Independent == \A id \in handed : \A p \in tokCache : p[2] # id
 \* the cache itself is never damaged
-CacheIntact == \A p \in tokCache : \E m \in Modes : lists[p[2]] = FreshTokensM(p[1], m)
+CacheIntact == \A p \in tokCache : \E m \in Modes : Vals(lists, tok, p[2]) = FreshTokensM(p[1], m)
 =============================================================================
